@@ -23,6 +23,9 @@ func Run(req *pluginpb.CodeGeneratorRequest) (resp *pluginpb.CodeGeneratorRespon
 			err = fmt.Errorf("generator panic: %v", r)
 		}
 	}()
+	// protogen owns its request and re-unmarshals file protos in place when it
+	// finds extensions; never share one with another goroutine
+	req = proto.Clone(req).(*pluginpb.CodeGeneratorRequest)
 	g, err := protogen.Options{}.New(req)
 	if err != nil {
 		return nil, err
